@@ -30,6 +30,7 @@ func init() {
 			"operator composition op2(op1(x)) and op2(op1(x), op1'(y)) over every result-kind-producing operation (bitwise, >>>, charCodeAt, lengths, indexOf, Date getters, parseInt, Math, arithmetic) at boundary inputs, " +
 			"ToString(Number) kind twins: V numbers and a 2^k / 10^k neighbour lattice x argument forms (injected float64, exponent literal, integer literal, text) x computations (a*1, -(-a), a-0, a/1, +a, Number, parseFloat) x 11 ToString contexts. " +
 			"ToNumber(String): every single and double insertion of + - space _ . e x 0 (thorough: 16 characters) at every position of each StringNumericLiteral form x 8 ToNumber contexts. " +
+			"String order: all pairs of well-formed strings around U+D7FF/U+E000/U+FFFD/U+FFFF/U+10000/U+1F600/U+10FFFF (alone, a-prefixed, a-suffixed) x 4 carriers per side x < > <= >= == === and default sort. " +
 			"Each case compares result (IEEE class / exact bits, string, boolean, object identity), thrown class and the coercion log with the model. " +
 			"A case is trivial when the model throws a TypeError before any coercion (e.g. `x in 1`); everything else is non-trivial.",
 		Families: []engine.Family{
@@ -42,6 +43,7 @@ func init() {
 			{Name: "compose", Run: runCompose},
 			{Name: "tostring", Run: runToString},
 			{Name: "strnum", Run: runStrNum},
+			{Name: "strorder", Run: runStrOrder},
 			{Name: "intsweep", Run: runIntSweep},
 			{Name: "arith", Run: runArith},
 			{Name: "compound", Run: runCompound, ThoroughOnly: true},
